@@ -35,6 +35,7 @@ fn op() -> BoxedStrategy<Op> {
         2 => gen::policy_any().prop_map(Op::SetPolicy),
         1 => Just(Op::IntoRecords),
         1 => (0u8..3).prop_map(Op::ShrinkSet),
+        1 => (0u8..3, 0u8..3).prop_map(|(a, b)| Op::CloneSet(a, b)),
     ]
     .boxed()
 }
